@@ -1,4 +1,5 @@
 import RadicaleProofs.Fold
+import RadicaleProofs.Export
 /-
   C14 — calendar objects and contacts come back exactly as they were stored   (partial).
 
@@ -59,5 +60,26 @@ theorem f24_not_read_back : safe f24 = false ∧ readLines (foldLine f24) ≠ [f
 
 -- non-vacuity: a long non-ASCII line with blanks inside is safe and comes back
 example : safe ("SUMMARY:".toList ++ List.replicate 40 'ä' ++ " und ".toList ++ List.replicate 60 'x') = true := by decide +kernel
+
+/-! ### the whole-calendar export (`BaseCollection.serialize`), model RadicaleModel/Export.lean: the line-level loop -/
+
+/-- **each VTIMEZONE once**: whatever the stored objects look like, the TZIDs of the VTIMEZONE blocks copied into the
+    export are pairwise different -/
+theorem export_each_tzid_once (items : List (List Export.Line)) : (Export.emittedTzids items).Nodup :=
+  (Export.run_inv items).1
+
+/-- and none is lost: a TZID whose definition was seen in some object has a VTIMEZONE block in the export -/
+theorem export_keeps_every_tzid (items : List (List Export.Line)) (t : Str) (h : t ∈ (Export.run items).included) :
+    t ∈ Export.emittedTzids items := by
+  have := (Export.run_inv items).2.2 t h
+  simp only [Export.emittedTzids, List.mem_filterMap, id]
+  exact ⟨some t, this, rfl⟩
+
+-- non-vacuity: two objects with different definitions of one time zone, one block in the export
+private def obj (uid tzextra : String) : List Export.Line :=
+  ["BEGIN:VCALENDAR", "VERSION:2.0", "BEGIN:VTIMEZONE", "TZID:Europe/Berlin", tzextra, "END:VTIMEZONE",
+   "BEGIN:VEVENT", "UID:" ++ uid, "END:VEVENT", "END:VCALENDAR", ""].map String.toList
+example : Export.emittedTzids [obj "a" "X-A:1", obj "b" "X-B:2"] = ["Europe/Berlin".toList] := by decide +kernel
+example : (Export.body [obj "a" "X-A:1", obj "b" "X-B:2"]).length = 4 + 3 + 3 := by decide +kernel
 
 end C14
